@@ -6,6 +6,7 @@ VERIF = os.path.dirname(os.path.dirname(os.path.abspath(__file__)))
 REPO = os.environ.get('VERIF_REPO', '/repo')
 CACHE = os.environ.get('VERIF_CACHE', '/var/tmp/tfhe-verif-cache')
 COQ = os.path.join(VERIF, 'coq')
+OUT = os.environ.get('VERIF_OUT', VERIF)   # where evidence/ and replays/ are written (redirected when testing seeded changes)
 NPROC = os.cpu_count() or 4
 BACKENDS = ['spqlios-fma', 'spqlios-avx', 'nayuki-portable', 'nayuki-avx', 'fftw']
 
@@ -329,7 +330,7 @@ class Ctx:
 
     # ---- verdicts
     def replay_path(self, tag=''):
-        d = os.path.join(VERIF, 'replays'); os.makedirs(d, exist_ok=True)
+        d = os.path.join(OUT, 'replays'); os.makedirs(d, exist_ok=True)
         return os.path.join(d, '%s-%d%s.json' % (self.pid, self.seed, ('-' + tag) if tag else ''))
 
     def report(self, key, what, replay, no_input=False):
@@ -391,8 +392,8 @@ class Ctx:
             'repo_fingerprint': repo_fingerprint(),
             'notes': self.notes,
         }
-        os.makedirs(os.path.join(VERIF, 'evidence'), exist_ok=True)
-        with open(os.path.join(VERIF, 'evidence', self.pid + '.json'), 'w') as fh:
+        os.makedirs(os.path.join(OUT, 'evidence'), exist_ok=True)
+        with open(os.path.join(OUT, 'evidence', self.pid + '.json'), 'w') as fh:
             json.dump(ev, fh, indent=1, default=str)
         if self.violations:
             print('%s: %d violation(s); evidence/%s.json' % (self.pid, len(self.violations), self.pid))
